@@ -5,7 +5,9 @@ cd "$(dirname "$0")"
 export GOFLAGS=-mod=mod GOPROXY=off GOSUMDB=off GOTOOLCHAIN=local
 PROP=$1; TIER=${2:-quick}
 LOG=$(mktemp /dev/shm/pogverif-buildlog.XXXXXX 2>/dev/null || mktemp)
-if ! tools/build.sh >"$LOG" 2>&1; then
+RACE=true
+if [ "$PROP" = "C10" ]; then RACE="tools/build.sh race"; fi
+if ! { tools/build.sh && $RACE; } >"$LOG" 2>&1; then
   echo "BUILD FAILED (harness could not be built against the current tree):" >&2
   tail -40 "$LOG" >&2; rm -f "$LOG"
   exit 2
